@@ -44,6 +44,7 @@ ASSUMPTIONS = [
 IMPORTS = ("From PM.theories Require Import Base Lock CorrLock.\n"
            "From PM.Generated Require Import GenLock.")
 
+CHK = "chk_lock call_skeleton broadcast_call_skeleton"
 HARD = 8.0          # seconds: any single wait longer than this is a hang
 
 
@@ -132,6 +133,9 @@ class CoopRLock:
         self.depth -= 1
         if self.depth == 0:
             self.owner = None
+            hook = getattr(self.s, "on_release", None)
+            if hook:
+                hook()
             self.s.park("released")
 
     def __enter__(self):
@@ -144,6 +148,42 @@ class CoopRLock:
         return self.owner in (None, t)
 
 
+BROADCAST_ACK = b'Broadcast write sent - no response expected'
+
+
+def tcp_peer(req):
+    """in-order responsive peer: the reply bytes for one MBAP request (nothing for unit 0)"""
+    tid, unit, fc = req[0:2], req[6], req[7]
+    if unit == 0:
+        return b""
+    addr = int.from_bytes(req[8:10], "big")
+    if fc == 3:
+        count = int.from_bytes(req[10:12], "big")
+        body = bytes([unit, fc, 2 * count]) + b"".join(addr.to_bytes(2, "big") for _ in range(count))
+    else:
+        body = req[6:12]
+    return tid + b"\x00\x00" + len(body).to_bytes(2, "big") + body
+
+
+def make_request(t, k, bc):
+    from pymodbus.register_read_message import ReadHoldingRegistersRequest
+    from pymodbus.register_write_message import WriteSingleRegisterRequest
+    if bc:
+        return WriteSingleRegisterRequest(address=t * 64 + k, value=7, unit=0)
+    return ReadHoldingRegistersRequest(address=t * 64 + k, count=1 + (t + k) % 3, unit=1)
+
+
+def canon_result(r, req, t, k, bc, with_tid=True):
+    """own reply / own acknowledgement -> (tid, thread, call); anything else -> None"""
+    if bc:
+        return (int(req.transaction_id) if with_tid else 0, t, k) if r == BROADCAST_ACK else None
+    regs = getattr(r, "registers", None)
+    if regs and not isinstance(r, Exception) and len(regs) == 1 + (regs[0] // 64 + regs[0] % 64) % 3 \
+            and all(x == regs[0] for x in regs):
+        return (int(r.transaction_id) if with_tid else 0, regs[0] // 64, regs[0] % 64)
+    return None
+
+
 def make_client(sched, log):
     from pymodbus.client.sync import ModbusTcpClient
 
@@ -151,7 +191,7 @@ def make_client(sched, log):
         """real client; only the three transport primitives are replaced"""
 
         def __init__(self):
-            ModbusTcpClient.__init__(self, host="mem", port=0)
+            ModbusTcpClient.__init__(self, host="mem", port=0, broadcast_enable=True)
             self.inbuf = bytearray()
             self.phase = {}
 
@@ -175,11 +215,9 @@ def make_client(sched, log):
             log.append((th.c15_idx, th.c15_k, "KSend"))
             self.phase[th.c15_idx] = 0
             req = bytes(request)
-            tid, unit, fc = req[0:2], req[6], req[7]
-            addr = int.from_bytes(req[8:10], "big")
-            count = int.from_bytes(req[10:12], "big")
-            body = bytes([unit, fc, 2 * count]) + b"".join(addr.to_bytes(2, "big") for _ in range(count))
-            self.inbuf += tid + b"\x00\x00" + len(body).to_bytes(2, "big") + body
+            self.inbuf += tcp_peer(req)
+            if req[6] == 0:
+                log[-1] = (th.c15_idx, th.c15_k, "KSendB")
             return len(req)
 
         def _recv(self, size):
@@ -199,9 +237,11 @@ def make_client(sched, log):
     return MemTcpClient()
 
 
-def run_schedule(calls, choose):
-    """drive one schedule; choose(enabled, i) -> thread id.  Returns the observation record."""
-    from pymodbus.register_read_message import ReadHoldingRegistersRequest
+def run_schedule(prog, choose):
+    """drive one schedule; prog = per thread the list of calls (0 unicast read, 1 broadcast write);
+    choose(enabled, i) -> thread id.  Returns the observation record."""
+    prog = [list(p) for p in prog]
+    calls = [len(p) for p in prog]
     n = len(calls)
     sched = Sched(n)
     log = []
@@ -217,19 +257,14 @@ def run_schedule(calls, choose):
         try:
             for k in range(calls[t]):
                 th.c15_k = k
-                req = ReadHoldingRegistersRequest(address=t * 64 + k, count=1 + (t + k) % 3, unit=1)
+                req = make_request(t, k, prog[t][k])
                 try:
                     r = client.execute(req)
                 except Abort:
                     raise
                 except Exception as e:  # noqa: BLE001 — observation
                     r = e
-                regs = getattr(r, "registers", None)
-                if regs and not isinstance(r, Exception) and len(regs) == 1 + (regs[0] // 64 + regs[0] % 64) % 3 \
-                        and all(x == regs[0] for x in regs):
-                    results[t].append((int(r.transaction_id), regs[0] // 64, regs[0] % 64))
-                else:
-                    results[t].append(None)
+                results[t].append(canon_result(r, req, t, k, prog[t][k]))
         except Abort:
             pass
         except BaseException as e:  # noqa: BLE001
@@ -273,13 +308,13 @@ def run_schedule(calls, choose):
         status = "lock-misuse"
     if isinstance(client.transaction._transaction_lock, CoopRLock) is False and status == "ok":
         status = "lock-replaced"
-    return {"calls": list(calls), "decisions": [(t, k) for t, k, _ in decisions],
+    return {"calls": list(calls), "prog": prog, "decisions": [(t, k) for t, k, _ in decisions],
             "enabled": [e for _, _, e in decisions], "log": list(log), "results": results,
             "status": status, "errors": errors + lock.misuse, "overlap": overlap,
             "completed": status in ("ok", "lock-replaced") and all(len(results[t]) == calls[t] for t in range(n))}
 
 
-def explore_all(calls, limit):
+def explore_all(calls, limit, runner=None):
     """stateless DFS over all schedules (each run replays a prefix, then always picks the lowest enabled)"""
     out = []
     stack = [[]]
@@ -291,9 +326,9 @@ def explore_all(calls, limit):
             if i < len(prefix):
                 return prefix[i] if prefix[i] in enabled else enabled[0]
             return enabled[0]
-        obs = run_schedule(calls, choose)
+        obs = (runner or run_schedule)(calls, choose)
         out.append(obs)
-        if obs["status"] != "ok" or not obs["completed"] or any(x is None for rs in obs["results"] for x in rs):
+        if obs["status"] != "ok" or obs.get("violations") or not obs["completed"] or any(x is None for rs in obs["results"] for x in rs):
             suspects += 1
             if suspects >= 25:      # the property is already visibly broken: no point in enumerating on
                 break
@@ -307,7 +342,7 @@ def explore_all(calls, limit):
     return out, (not stack)
 
 
-def explore_random(r, calls, count):
+def explore_random(r, calls, count, runner=None):
     out = []
     for _ in range(count):
         bias = r.random()
@@ -319,11 +354,305 @@ def explore_random(r, calls, count):
             choose.last = r.choice(enabled)
             return choose.last
         choose.last = None
-        obs = run_schedule(calls, choose)
+        obs = (runner or run_schedule)(calls, choose)
         out.append(obs)
         if obs["status"] in ("hang", "unjoined"):
             break
     return out
+
+
+# ----------------------------------------------------------------------------- socket-level suite
+# The REAL ModbusTcpClient / ModbusSerialClient methods (connect, _send, _recv unreplaced) over a
+# fake socket / fake serial port assigned to client.socket.  `select`, `time` and `socket` in the
+# pymodbus.client.sync namespace (and serial.Serial) are replaced for the duration of a run; threads
+# park at every socket-level operation (send, recv, select / write, read, in_waiting), at the lock
+# acquisition and after its release.
+
+def ascii_peer(frame):
+    import binascii
+    data = binascii.unhexlify(frame[1:-2])
+    unit, fc = data[0], data[1]
+    if unit == 0:
+        return b""
+    addr = int.from_bytes(data[2:4], "big")
+    if fc == 3:
+        count = int.from_bytes(data[4:6], "big")
+        body = bytes([unit, fc, 2 * count]) + b"".join(addr.to_bytes(2, "big") for _ in range(count))
+    else:
+        body = data[:-1]
+    lrc = (-sum(body)) & 0xff
+    return b":" + binascii.hexlify(body + bytes([lrc])).upper() + b"\r\n"
+
+
+class FakeWire:
+    """one object that is both a socket (send/recv/...) and a serial port (write/read/in_waiting)"""
+
+    def __init__(self, sched, log, peer):
+        self.sched, self.log, self.peer = sched, log, peer
+        self.inbuf = bytearray()
+        self.is_open = True
+        self.timeout = 3
+
+    def ev(self, op):
+        th = threading.current_thread()
+        if getattr(th, "c15_idx", None) is not None:
+            self.log.append((th.c15_idx, th.c15_k, op))
+
+    # --- socket
+    def send(self, data):
+        self.sched.park("send")
+        data = bytes(data)
+        self.ev("send-b" if self.is_broadcast(data) else "send")
+        self.inbuf += self.peer(data)
+        return len(data)
+
+    def recv(self, n, *flags):
+        self.sched.park("recv")
+        self.ev("recv")
+        out = bytes(self.inbuf[:n])
+        if not flags:
+            del self.inbuf[:n]
+        return out
+
+    def is_broadcast(self, data):
+        if data[:1] == b":":
+            return data[1:3] == b"00"
+        return len(data) > 6 and data[6] == 0
+
+    def setblocking(self, *_a):
+        pass
+
+    def settimeout(self, *_a):
+        pass
+
+    def fileno(self):
+        return -1
+
+    def close(self):
+        pass
+
+    # --- serial
+    def write(self, data):
+        return self.send(data)
+
+    def read(self, n):
+        return self.recv(n)
+
+    @property
+    def in_waiting(self):
+        self.sched.park("in_waiting")
+        self.ev("in_waiting")
+        return len(self.inbuf)
+
+    def isOpen(self):
+        return True
+
+
+class FakeClock:
+    """per-thread virtual time: a select that finds nothing costs its timeout, nobody really waits"""
+
+    def __init__(self):
+        self.t = {}
+
+    def time(self):
+        return self.t.get(me(), 0.0) + 1000.0
+
+    def sleep(self, d):
+        self.t[me()] = self.t.get(me(), 0.0) + max(d, 0.0)
+
+
+class FakeSelect:
+    def __init__(self, sched, wire, clock):
+        self.sched, self.wire, self.clock = sched, wire, clock
+
+    def select(self, r, w, x, timeout=None):
+        self.sched.park("select")
+        self.wire.ev("select")
+        if self.wire.inbuf:
+            return (list(r), [], [])
+        self.clock.sleep(timeout if timeout and timeout > 0 else 0.001)
+        return ([], [], [])
+
+
+class FakeSocketModule:
+    error = OSError
+    timeout = OSError
+
+    def __init__(self, wire):
+        self.wire = wire
+
+    def create_connection(self, *a, **k):
+        return self.wire
+
+
+SOCKET_OPS = ("send", "send-b", "recv", "select", "in_waiting")
+
+
+def judge_socket_trace(prog, log, results, completed):
+    """python-side oracle for the socket-level suite.  log: (t, k, op) with op a socket operation or
+    'end' (execute returned)."""
+    bad = []
+    window = None                       # (t, k) between its send and the end of its receive (= return of the call)
+    closed, cur = set(), None
+    sends = {}
+    for t, k, op in log:
+        if op == "end":
+            if window == (t, k):
+                window = None
+            continue
+        if window is not None and window != (t, k):
+            bad.append("thread %d call %d does a socket %s inside the send..receive window of thread %d call %d"
+                       % (t, k, op, window[0], window[1]))
+        if op == "send":
+            window = (t, k)
+        if op in ("send", "send-b"):
+            sends[(t, k)] = sends.get((t, k), 0) + 1
+        if cur != (t, k):
+            if (t, k) in closed:
+                bad.append("socket operations of thread %d call %d are not contiguous" % (t, k))
+            if cur is not None:
+                closed.add(cur)
+            cur = (t, k)
+    for t, p in enumerate(prog):
+        for k, _bc in enumerate(p):
+            if completed and sends.get((t, k), 0) != 1:
+                bad.append("thread %d call %d: %d sends" % (t, k, sends.get((t, k), 0)))
+            got = results[t][k] if k < len(results[t]) else "missing"
+            if got is None or got == "missing" or tuple(got[1:]) != (t, k):
+                bad.append("thread %d call %d returned %r instead of its own reply" % (t, k, got))
+    if not completed:
+        bad.append("not every call returned")
+    return bad[:6]
+
+
+def make_runner(kind):
+    def run(prog, choose):
+        return run_real(kind, prog, choose)
+    return run
+
+
+def run_real(kind, prog, choose):
+    """one schedule on the REAL client methods; kind = 'tcp' | 'serial'"""
+    import serial
+    from pymodbus.client import sync
+    prog = [list(p) for p in prog]
+    calls = [len(p) for p in prog]
+    n = len(calls)
+    sched = Sched(n)
+    log = []
+    clock = FakeClock()
+    wire = FakeWire(sched, log, tcp_peer if kind == "tcp" else ascii_peer)
+    sched.on_release = lambda: wire.ev("end")      # the transaction is over when the lock is released
+    saved = (sync.select, sync.time, sync.socket, serial.Serial)
+    sync.select, sync.time, sync.socket = FakeSelect(sched, wire, clock), clock, FakeSocketModule(wire)
+    serial.Serial = lambda *a, **k: wire
+    try:
+        if kind == "tcp":
+            client = sync.ModbusTcpClient(host="mem", port=0, broadcast_enable=True)
+        else:
+            client = sync.ModbusSerialClient(method="ascii", port="mem", broadcast_enable=True)
+        client.socket = wire
+        lock = CoopRLock(sched)
+        client.transaction._transaction_lock = lock
+        results = [[] for _ in range(n)]
+        errors = []
+
+        def worker(t):
+            th = threading.current_thread()
+            th.c15_idx, th.c15_k = t, 0
+            try:
+                sched.park("start")
+                for k in range(calls[t]):
+                    th.c15_k = k
+                    req = make_request(t, k, prog[t][k])
+                    try:
+                        r = client.execute(req)
+                    except Abort:
+                        raise
+                    except Exception as e:  # noqa: BLE001 — observation
+                        r = e
+                    log.append((t, k, "end"))
+                    results[t].append(canon_result(r, req, t, k, prog[t][k], with_tid=(kind == "tcp")))
+            except Abort:
+                pass
+            except BaseException as e:  # noqa: BLE001
+                errors.append("thread %d: %r" % (t, e))
+            finally:
+                sched.finish(t)
+
+        threads = [threading.Thread(target=worker, args=(t,), daemon=True) for t in range(n)]
+        for th in threads:
+            th.start()
+        decisions, status, overlap = [], "ok", False
+        while True:
+            if not sched.wait_quiet():
+                status = "hang"
+                break
+            if len(sched.finished) == n:
+                break
+            enabled = sorted(t for t, kd in sched.parked.items() if kd != "acquire" or lock.enabled(t))
+            if not enabled:
+                status = "deadlock"
+                break
+            if len(decisions) > 600:
+                status = "livelock"
+                break
+            t = choose(enabled, len(decisions))
+            kd = sched.parked[t]
+            if kd != "start" and any(sched.parked.get(u) not in (None, "start") for u in range(n) if u != t):
+                overlap = True
+            decisions.append((t, kd, enabled))
+            sched.release(t)
+        sched.shutdown()
+        for th in threads:
+            th.join(2.0)
+        if any(th.is_alive() for th in threads) and status == "ok":
+            status = "unjoined"
+        if lock.misuse and status == "ok":
+            status = "lock-misuse"
+    finally:
+        sync.select, sync.time, sync.socket, serial.Serial = saved
+    completed = status == "ok" and all(len(results[t]) == calls[t] for t in range(n))
+    return {"kind": kind, "calls": calls, "prog": prog, "decisions": [(t, k) for t, k, _ in decisions],
+            "enabled": [e for _, _, e in decisions], "log": list(log), "results": results, "status": status,
+            "errors": errors + lock.misuse, "overlap": overlap, "completed": completed,
+            "violations": judge_socket_trace(prog, log, results, completed)}
+
+
+def real_desc(o):
+    return {"suite": "sockets", "kind": o["kind"], "calls": o["prog"],
+            "decisions": [[t, k] for t, k in o["decisions"]], "status": o["status"],
+            "violations": o["violations"], "log": [list(e) for e in o["log"]][:80], "results": o["results"],
+            "errors": o["errors"][:3]}
+
+
+_REAL = {}
+
+
+def collect_real(tier):
+    if tier in _REAL:
+        return _REAL[tier]
+    t0 = time.time()
+    r = common.rng("C15.sockets")
+    U, B = 0, 1
+    groups, complete = [], {}
+    for kind in ("tcp", "serial"):
+        for prog in ([[U], [U]], [[U], [B]], [[B], [B]]):
+            obs, done = explore_all(prog, 3000 if tier == "quick" else 100000, runner=make_runner(kind))
+            nm = kind + ":" + "|".join("".join("ub"[c] for c in p) for p in prog)
+            complete[nm] = {"schedules": len(obs), "exhausted": done}
+            groups.append((nm, obs))
+        per = 40 if tier == "quick" else 800
+        for calls in ([2, 2], [1, 1, 1], [2, 1, 2]):
+            obs = []
+            for _ in range(per):
+                prog = [[(B if r.random() < 0.3 else U) for _ in range(c)] for c in calls]
+                obs += explore_random(r, prog, 1, runner=make_runner(kind))
+                if obs[-1]["status"] in ("hang", "unjoined"):
+                    break
+            groups.append(("%s:rand-%s" % (kind, "x".join(map(str, calls))), obs))
+    _REAL[tier] = (groups, complete, round(time.time() - t0, 1))
+    return _REAL[tier]
 
 
 def obs_term(o):
@@ -331,12 +660,12 @@ def obs_term(o):
     res = lst(lst(("Some (%d%%N, %s, %s)" % (x[0], nat(x[1]), nat(x[2]))) if x is not None else "None" for x in rs)
               for rs in o["results"])
     sch = lst(nat(t) for t, kind in o["decisions"] if kind != "recv2")
-    return ("{| lc_calls := %s; lc_sched := %s; lc_log := %s; lc_results := %s; lc_completed := %s |}"
-            % (lst(nat(c) for c in o["calls"]), sch, ev, res, boolean(o["completed"])))
+    return ("{| lc_prog := %s; lc_sched := %s; lc_log := %s; lc_results := %s; lc_completed := %s |}"
+            % (lst(lst(boolean(b) for b in p) for p in o["prog"]), sch, ev, res, boolean(o["completed"])))
 
 
 def obs_desc(o):
-    return {"calls": o["calls"], "decisions": [[t, k] for t, k in o["decisions"]], "status": o["status"],
+    return {"calls": o["prog"], "decisions": [[t, k] for t, k in o["decisions"]], "status": o["status"],
             "log": [list(e) for e in o["log"]], "results": o["results"], "errors": o["errors"][:3]}
 
 
@@ -349,18 +678,28 @@ def collect(tier):
     t0 = time.time()
     r = common.rng("C15.sched")
     groups = []
-    exhaustive = [[1, 1], [2, 1], [1, 2]]
+    U, B = 0, 1
+    exhaustive = [[[U], [U]], [[U], [B]], [[B], [B]], [[U, U], [U]], [[U], [U, U]], [[U, B], [U]]]
     if tier != "quick":
-        exhaustive += [[2, 2]]
+        exhaustive += [[[U, U], [U, U]], [[B, U], [U, B]]]
     complete = {}
-    for calls in exhaustive:
-        obs, done = explore_all(calls, 4000 if tier == "quick" else 200000)
-        complete["x".join(map(str, calls))] = {"schedules": len(obs), "exhausted": done}
-        groups.append(("all-" + "x".join(map(str, calls)), obs))
+
+    def name(prog):
+        return "|".join("".join("ub"[c] for c in p) for p in prog)
+    for prog in exhaustive:
+        obs, done = explore_all(prog, 4000 if tier == "quick" else 200000)
+        complete[name(prog)] = {"schedules": len(obs), "exhausted": done}
+        groups.append(("all-" + name(prog), obs))
     shapes = [[2, 2], [3, 3], [1, 1, 1], [2, 2, 2], [3, 2, 1], [1, 1, 1, 1], [2, 1, 2, 1], [3, 3, 3], [2, 2, 2, 2], [3, 1, 2, 3]]
     per = 40 if tier == "quick" else 600
     for calls in shapes:
-        groups.append(("rand-%dthr" % len(calls), explore_random(r, calls, per)))
+        obs = []
+        for _ in range(per):
+            prog = [[(B if r.random() < 0.3 else U) for _ in range(c)] for c in calls]
+            obs += explore_random(r, prog, 1)
+            if obs[-1]["status"] in ("hang", "unjoined"):
+                break
+        groups.append(("rand-%dthr" % len(calls), obs))
     _CACHE[tier] = (groups, complete, round(time.time() - t0, 1))
     return _CACHE[tier]
 
@@ -370,9 +709,9 @@ def suites(tier):
     cases = []
     for label, obs in groups:
         for o in obs:
-            key = (tuple(o["calls"]), tuple(o["decisions"]))
+            key = (str(o["prog"]), tuple(o["decisions"]))
             cases.append(Case(obs_term(o), obs_desc(o), kind=label, nontrivial=o["overlap"], key=key))
-    return [Suite("schedules", IMPORTS, "chk_lock call_skeleton", cases, shard=300)]
+    return [Suite("schedules", IMPORTS, CHK, cases, shard=300)]
 
 
 def extra_checks(tier):
@@ -384,13 +723,31 @@ def extra_checks(tier):
             if o["status"] != "ok" or o["errors"] or not o["completed"]:
                 failures.append(obs_desc(o))
             if o["overlap"]:
-                keys.append((tuple(o["calls"]), tuple(o["decisions"])))
+                keys.append((str(o["prog"]), tuple(o["decisions"])))
     for k, v in complete.items():
         if not v["exhausted"]:
             broken.append("schedule enumeration for %s did not finish (%d schedules)" % (k, v["schedules"]))
-    return {"threads-live": {"evaluations": n, "failures": failures[:5], "broken": broken, "keys": keys,
-                             "enumerated": complete, "wall_s": wall,
-                             "samples": [obs_desc(groups[0][1][0])] if groups and groups[0][1] else []}}
+    out = {"threads-live": {"evaluations": n, "failures": failures[:5], "broken": broken, "keys": keys,
+                            "enumerated": complete, "wall_s": wall,
+                            "samples": [obs_desc(groups[0][1][0])] if groups and groups[0][1] else []}}
+    rgroups, rcomplete, rwall = collect_real(tier)
+    n, failures, broken, keys, hist = 0, [], [], [], {}
+    for label, obs in rgroups:
+        hist[label] = len(obs)
+        for o in obs:
+            n += 1
+            if o["status"] != "ok" or o["errors"] or o["violations"]:
+                failures.append(real_desc(o))
+            if o["overlap"]:
+                keys.append((o["kind"], str(o["prog"]), tuple(o["decisions"])))
+    for k, v in rcomplete.items():
+        if not v["exhausted"] and not failures:
+            broken.append("schedule enumeration for %s did not finish (%d schedules)" % (k, v["schedules"]))
+    failures = [f for f in failures if f["kind"] == "tcp"][:3] + [f for f in failures if f["kind"] == "serial"][:3]
+    out["sockets"] = {"evaluations": n, "failures": failures, "broken": broken, "keys": keys,
+                      "enumerated": rcomplete, "histogram": hist, "wall_s": rwall,
+                      "samples": [real_desc(rgroups[0][1][0])] if rgroups and rgroups[0][1] else []}
+    return out
 
 
 def classify(suite, desc):
@@ -406,10 +763,14 @@ def replay_case(suite, desc):
 
     def choose(enabled, i):
         return dec[i] if i < len(dec) and dec[i] in enabled else enabled[0]
+    if suite == "sockets":
+        o = run_real(desc["kind"], desc["calls"], choose)
+        print("status", o["status"], "violations", o["violations"], "results", o["results"])
+        return bool(o["violations"] or o["status"] != "ok")
     o = run_schedule(desc["calls"], choose)
     print("status", o["status"], "log", o["log"], "results", o["results"])
     from lib import coqrun
-    r = coqrun.eval_cases("C15_replay", IMPORTS, "chk_lock call_skeleton", [obs_term(o)])
+    r = coqrun.eval_cases("C15_replay", IMPORTS, CHK, [obs_term(o)])
     print(r)
     return bool(r["propfail"] or r["errors"] or o["status"] != "ok")
 
